@@ -12,6 +12,7 @@ Definition res_eqb (a b : res) : bool :=
   | RAuth x, RAuth y => Nat.eqb x y
   | RBind x, RBind y => list_eqb Nat.eqb x y
   | RReset, RReset => true
+  | RServed, RServed => true
   | RSkipped, RSkipped => true
   | _, _ => false
   end.
